@@ -203,6 +203,22 @@ CHECKS["C15"] = (
     "DESIGN.md §4 C15",
 )
 
+CHECKS["C09"] = (
+    "E-CH",
+    "CrossHair/z3 exhaustive exploration of operation histories on a reused real parser (symbolic ints in the object operation), each step compared with the same operation on a fresh parser and with its outcome in a pristine process",
+    "Bounded model checking of the real parser over its history. The history is the solver's input: an integer picks one of 16 "
+    "operations (18 thorough: successful and failing parse_args, --help, --print_config, --print_config followed by an invalid option at "
+    "top level and inside a subcommand, --cfg texts holding sections for two subcommands with and without an explicit choice, "
+    "parse_object ok/failing with symbolic ints, parse_string, parse_env, get_defaults, dump, validate, instantiate_classes) at each "
+    "of k <= 2 steps (k = 3 over 10 operations in the thorough tier) on a parser with required subcommands, config arguments at both "
+    "levels, a default config file, a class argument and a parse link. After every step the outcome (result with meta stripped | "
+    "ArgumentError text | exit status + stdout) must equal the outcome of that operation on a fresh parser; for concrete operations the "
+    "reference is computed in a process of its own, so state kept outside the parser cannot hide on both sides; an untouched parser "
+    "built before the history is compared at the end.",
+    "Trusted: CrossHair/z3. Outside: longer histories, other parser factories, operations whose text outcome depends on symbolic values.",
+    "DESIGN.md §4 C09",
+)
+
 NOT_APPLICABLE = {
     "C13": "the resolver's only input is source code on disk (inspect.getsource/ast.parse/import); a symbolic program cannot be "
     "represented for that code and types/defaults are part of the program, so no dimension of the quantifier can be a solver variable",
